@@ -1,5 +1,310 @@
-/- C17 — property theorems (to be written). -/
-import SoundeventModel.Basic
+/-
+  C17 — Cropping and extending keep data on its coordinates and hit the requested size.
+  Property theorems only (helper lemmas live in Proofs/Lemmas/Axis.lean, Proofs/Lemmas/Extend.lean).
+-/
+import SoundeventModel.Axis
+import Proofs.Lemmas.Axis
+import Proofs.Lemmas.Extend
 namespace SE.Proofs.C17
+open SE SE.Axis
+
+/-! ## `crop_dim` -/
+
+/-- `crop_dim` keeps exactly the samples (coordinate with its datum, in order) whose coordinate
+    lies in the requested interval, closed or open at each end as asked — provided no coordinate
+    lies within `eps` of an open end on its inner side (the property's quantifier: steps large
+    compared with `eps`).  A missing `start` / `stop` means the axis end, closed. -/
+theorem C17_crop_exact {α} (a : Samples α) (start stop : Option Rat) (lc rc : Bool) (eps cs ce : Rat)
+    (hmin : listMin (coordsOf a) = some cs) (hmax : listMax (coordsOf a) = some ce) (heps : 0 < eps)
+    (hse : start.getD cs ≤ stop.getD ce) (hlo : cs ≤ start.getD cs) (hhi : stop.getD ce ≤ ce)
+    (hl : start.isSome → lc = false →
+      ∀ c ∈ coordsOf a, ¬ (start.getD cs < c ∧ c < start.getD cs + eps))
+    (hr : stop.isSome → rc = false →
+      ∀ c ∈ coordsOf a, ¬ (stop.getD ce - eps < c ∧ c < stop.getD ce)) :
+    cropDim a start stop lc rc eps =
+      .ok (a.filter (fun p => inside (start.getD cs) (stop.getD ce)
+              (start.isNone || lc) (stop.isNone || rc) p.1)) := by
+  have h1 : ¬ (start.getD cs > stop.getD ce) := by grind
+  have h2 : ¬ (start.getD cs < cs ∨ stop.getD ce > ce) := by grind
+  simp only [cropDim, hmin, hmax, h1, h2, if_false, selectRange]
+  congr 1
+  apply List.filter_congr
+  intro p hp
+  have hc : p.1 ∈ coordsOf a := List.mem_map.mpr ⟨p, hp, rfl⟩
+  cases start with
+  | none =>
+    cases stop with
+    | none => simp [inside]
+    | some e =>
+      cases rc with
+      | true => simp [inside]
+      | false =>
+        have := hr rfl rfl p.1 hc
+        simp [inside] at this ⊢
+        grind
+  | some s =>
+    cases stop with
+    | none =>
+      cases lc with
+      | true => simp [inside]
+      | false =>
+        have := hl rfl rfl p.1 hc
+        simp [inside] at this ⊢
+        grind
+    | some e =>
+      cases lc <;> cases rc <;> simp [inside]
+      · have h1 := hl rfl rfl p.1 hc
+        have h2 := hr rfl rfl p.1 hc
+        simp at h1 h2; grind
+      · have h1 := hl rfl rfl p.1 hc
+        simp at h1; grind
+      · have h2 := hr rfl rfl p.1 hc
+        simp at h2; grind
+
+/-- what `crop_dim` rejects: a reversed request, a request that leaves the axis range -/
+theorem C17_crop_rejects {α} (a : Samples α) (start stop : Option Rat) (lc rc : Bool) (eps cs ce : Rat)
+    (hmin : listMin (coordsOf a) = some cs) (hmax : listMax (coordsOf a) = some ce)
+    (h : start.getD cs > stop.getD ce ∨ start.getD cs < cs ∨ stop.getD ce > ce) :
+    cropDim a start stop lc rc eps = .error .invalid := by
+  simp only [cropDim, hmin, hmax]
+  by_cases h1 : start.getD cs > stop.getD ce
+  · simp [h1]
+  · have h2 : start.getD cs < cs ∨ stop.getD ce > ce := by grind
+    simp [h1, h2]
+
+/-! ## `extend_dim` -/
+
+/-- On a regular axis `a0, a0 + step, …, a0 + n·step` (step from the attribute or estimated),
+    for a request `[s, e]` / `(s, e)` / … that contains the axis, the result's coordinates are one
+    contiguous piece of the axis lattice, `kl` points below the old start and `kr` points above
+    the old end, and a lattice point beyond an end is included **iff** it lies inside the
+    requested interval (closed or open as asked) — provided no lattice point lies within `eps`
+    of a requested end without being that end (the property's quantifier: steps large compared
+    with `eps`).  Hence the result consists of exactly the lattice points inside the request. -/
+theorem C17_extend_lattice {α} (a : Samples α) (attr start stop : Option Rat) (fill : α) (eps : Rat)
+    (lc rc : Bool) (a0 step : Rat) (n : Nat) (hreg : coordsOf a = lattice a0 step (n + 1))
+    (hs : 0 < step) (heps : 0 < eps) (hstep : dimStep attr (coordsOf a) = .ok (some step))
+    (hcl : start.getD a0 ≤ a0) (hcr : a0 + (n : Rat) * step ≤ stop.getD (a0 + (n : Rat) * step))
+    (hl : ∀ j : Nat, 1 ≤ j →
+      ¬ (if lc then start.getD a0 - eps < a0 - (j : Rat) * step ∧ a0 - (j : Rat) * step < start.getD a0
+         else start.getD a0 < a0 - (j : Rat) * step ∧ a0 - (j : Rat) * step ≤ start.getD a0 + eps))
+    (hr : ∀ i : Nat, 1 ≤ i →
+      ¬ (if rc then stop.getD (a0 + (n : Rat) * step) < a0 + (n : Rat) * step + (i : Rat) * step ∧
+              a0 + (n : Rat) * step + (i : Rat) * step < stop.getD (a0 + (n : Rat) * step) + eps
+         else stop.getD (a0 + (n : Rat) * step) - eps ≤ a0 + (n : Rat) * step + (i : Rat) * step ∧
+              a0 + (n : Rat) * step + (i : Rat) * step < stop.getD (a0 + (n : Rat) * step))) :
+    ∃ (kl kr : Nat) (r : Samples α), extendDim a attr start stop fill eps lc rc = .ok r ∧
+      coordsOf r = lattice (a0 - (kl : Rat) * step) step (kl + (n + 1) + kr) ∧
+      (∀ j : Nat, 1 ≤ j → (j ≤ kl ↔
+        (if lc then start.getD a0 ≤ a0 - (j : Rat) * step else start.getD a0 < a0 - (j : Rat) * step))) ∧
+      (∀ i : Nat, 1 ≤ i → (i ≤ kr ↔
+        (if rc then a0 + (n : Rat) * step + (i : Rat) * step ≤ stop.getD (a0 + (n : Rat) * step)
+         else a0 + (n : Rat) * step + (i : Rat) * step < stop.getD (a0 + (n : Rat) * step)))) := by
+  have hn0 : (0 : Rat) ≤ (n : Rat) * step := Rat.mul_nonneg (natCast_nonneg n) (Rat.le_of_lt hs)
+  have hse : start.getD a0 ≤ stop.getD (a0 + (n : Rat) * step) := by grind
+  refine ⟨_, _, _, extendDim_regular a attr start stop fill eps lc rc a0 step n hreg hs hstep hse,
+    coordsOf_reindex _ _ _, ?_, ?_⟩
+  · intro j hj
+    rw [le_leftCount_iff a0 step _ hs j hj]
+    have := hl j hj
+    cases lc <;> simp at this ⊢ <;> grind
+  · intro i hi
+    rw [le_rightCount_iff _ step _ hs i hi]
+    have := hr i hi
+    cases rc <;> simp at this ⊢ <;> grind
+
+/-- every original sample is kept, with its datum at its original coordinate (for any axis with
+    unique coordinates, regular or not, whatever the request) -/
+theorem C17_extend_keeps {α} (a r : Samples α) (attr start stop : Option Rat) (fill : α) (eps : Rat)
+    (lc rc : Bool) (hnd : (coordsOf a).Nodup)
+    (h : extendDim a attr start stop fill eps lc rc = .ok r) :
+    (∀ p ∈ a, p ∈ r) ∧ ∃ l rr, coordsOf r = l ++ coordsOf a ++ rr := by
+  simp only [extendDim] at h
+  split at h
+  · split at h
+    · simp at h
+    · split at h
+      · simp at h
+      · split at h
+        · simp at h
+        · simp at h
+        · rename_i l rr _ _
+          cases h
+          refine ⟨?_, l, rr, coordsOf_reindex _ _ _⟩
+          intro p hp
+          simp only [reindex, List.mem_map]
+          refine ⟨p.1, ?_, ?_⟩
+          · simp; right; left; exact List.mem_map.mpr ⟨p, hp, rfl⟩
+          · rw [find_of_mem_nodup (c := p.1) (d := p.2) hnd hp]
+  · simp at h
+
+/-- every sample at a coordinate the array did not have holds the fill value -/
+theorem C17_extend_fill {α} (a r : Samples α) (attr start stop : Option Rat) (fill : α) (eps : Rat)
+    (lc rc : Bool) (h : extendDim a attr start stop fill eps lc rc = .ok r) :
+    ∀ p ∈ r, p.1 ∉ coordsOf a → p.2 = fill := by
+  simp only [extendDim] at h
+  split at h
+  · split at h
+    · simp at h
+    · split at h
+      · simp at h
+      · split at h
+        · simp at h
+        · simp at h
+        · cases h
+          intro p hp hnot
+          simp only [reindex, List.mem_map] at hp
+          obtain ⟨c, _, rfl⟩ := hp
+          simp only at hnot ⊢
+          rw [find_none_of_not_mem hnot]
+  · simp at h
+
+/-! ## `adjust_dim_width`, `crop_dim_width`, `extend_dim_width` -/
+
+/-- exactly `width` samples for every width ≥ 1, whatever the axis (its step being known from the
+    attribute or estimable when samples have to be added) and for each of the three positions -/
+theorem C17_width {α} (a : Samples α) (attr : Option Rat) (w : Int) (fill : α) (pos : Pos)
+    (hw : 1 ≤ w) (hne : a ≠ [])
+    (hstep : a.length < w.toNat → ∃ step, dimStep attr (coordsOf a) = .ok (some step)) :
+    ∃ r, adjustWidth a attr w fill (some pos) = .ok r ∧ r.length = w.toNat := by
+  have h1 : ¬ w < 1 := by omega
+  simp only [adjustWidth, h1, if_false]
+  by_cases heq : w.toNat = a.length
+  · simp [heq]
+  · by_cases hlt : w.toNat < a.length
+    · have hge : ¬ w.toNat ≥ a.length := by omega
+      have hw0 : w.toNat ≠ 0 := by omega
+      simp only [heq, hlt, if_false, if_true, cropWidth, hge]
+      cases pos <;> simp [hw0] <;> omega
+    · have hgt : a.length < w.toNat := by omega
+      obtain ⟨step, hst⟩ := hstep hgt
+      obtain ⟨p, ps, rfl⟩ := List.exists_cons_of_ne_nil hne
+      have hhead : (coordsOf (p :: ps)).head? = some p.1 := by simp [coordsOf]
+      have hlast : ∃ ce, (coordsOf (p :: ps)).getLast? = some ce := by
+        refine ⟨(coordsOf (p :: ps)).getLast (by simp [coordsOf]), List.getLast?_eq_some_getLast _⟩
+      obtain ⟨ce, hce⟩ := hlast
+      have hge : ¬ (p :: ps).length ≥ w.toNat := by omega
+      have hl : (p :: ps).length = ps.length + 1 := rfl
+      simp only [heq, hlt, if_false, extendWidth, hhead, hce, hst, hge]
+      cases pos <;> simp [reindex_length, coordsOf_length] <;> omega
+
+/-- placement on a regular axis: when samples are added, the result is `kl` filled samples, then
+    the original samples unchanged, then `extra - kl` filled samples, with `kl = 0`, `extra / 2`,
+    `extra` for `start`, `center`, `end`; when cropping, the result is the window of `width`
+    consecutive original samples starting at `0`, `n / 2 - width / 2`, `n - width` -/
+theorem C17_placement {α} (a : Samples α) (attr : Option Rat) (w : Int) (fill : α) (pos : Pos)
+    (a0 step : Rat) (n : Nat) (hreg : coordsOf a = lattice a0 step (n + 1)) (hs : step ≠ 0)
+    (hstep : dimStep attr (coordsOf a) = .ok (some step)) (hw : 1 ≤ w) :
+    adjustWidth a attr w fill (some pos) = .ok (
+      if w.toNat ≤ n + 1 then (a.drop (cropOffset (n + 1) w.toNat pos)).take w.toNat
+      else
+        (lattice (a0 - (padLeft (w.toNat - (n + 1)) pos : Rat) * step) step
+            (padLeft (w.toNat - (n + 1)) pos)).map (fun c => (c, fill))
+          ++ a ++
+        (lattice (a0 + ((n + 1 : Nat) : Rat) * step) step
+            (w.toNat - (n + 1) - padLeft (w.toNat - (n + 1)) pos)).map (fun c => (c, fill))) := by
+  have hlen : a.length = n + 1 := by rw [← coordsOf_length, hreg, lattice_length]
+  have h1 : ¬ w < 1 := by omega
+  simp only [adjustWidth, h1, if_false, hlen]
+  by_cases heq : w.toNat = n + 1
+  · have : cropOffset (n + 1) (n + 1) pos = 0 := by cases pos <;> simp [cropOffset]
+    rw [if_pos heq, if_pos (by omega), heq, this]
+    simp [← hlen]
+  · by_cases hlt : w.toNat < n + 1
+    · have hge : ¬ w.toNat ≥ n + 1 := by omega
+      have hw0 : w.toNat ≠ 0 := by omega
+      have hle : w.toNat ≤ n + 1 := by omega
+      simp only [heq, hlt, hle, if_false, if_true, cropWidth, hge, hlen]
+      cases pos <;> simp [cropOffset, hw0]
+      rw [List.take_of_length_le]
+      simp [hlen]; omega
+    · have hgt : ¬ w.toNat ≤ n + 1 := by omega
+      have hge : ¬ n + 1 ≥ w.toNat := by omega
+      simp only [heq, hlt, hgt, if_false, extendWidth, hstep, hlen]
+      rw [hreg, lattice_head?, lattice_getLast?]
+      simp only
+      have hnd : (coordsOf a).Nodup := by rw [hreg]; exact lattice_nodup _ _ _ hs
+      have hend : a0 + (n : Rat) * step + step = a0 + ((n + 1 : Nat) : Rat) * step := by simp; grind
+      have hb : ∀ k : Nat, reindex a (lattice (a0 - (k : Rat) * step) step k) fill =
+          (lattice (a0 - (k : Rat) * step) step k).map (fun c => (c, fill)) := by
+        intro k; apply reindex_disjoint; rw [hreg]; exact before_disjoint a0 step k (n + 1) hs
+      have ha : ∀ k : Nat, reindex a (lattice (a0 + (n : Rat) * step + step) step k) fill =
+          (lattice (a0 + ((n + 1 : Nat) : Rat) * step) step k).map (fun c => (c, fill)) := by
+        intro k; rw [hend]; apply reindex_disjoint; rw [hreg]; exact after_disjoint a0 step k (n + 1) hs
+      have hself : reindex a (lattice a0 step (n + 1)) fill = a := by rw [← hreg]; exact reindex_self a fill hnd
+      cases pos
+      · simp only [padLeft, reindex_append, ha, hself]
+        simp [lattice]
+      · simp only [padLeft, reindex_append, ha, hb, hself]
+      · simp only [padLeft, reindex_append, hb, hself]
+        simp [lattice]
+
+/-- a regular axis continues on its own lattice: the result's coordinates are again
+    `c0 + i * step`, `i < width`, starting `kl` steps below the old start when extending and at
+    the first kept coordinate when cropping -/
+theorem C17_regular_axis_continues {α} (a r : Samples α) (attr : Option Rat) (w : Int) (fill : α)
+    (pos : Pos) (a0 step : Rat) (n : Nat) (hreg : coordsOf a = lattice a0 step (n + 1)) (hs : step ≠ 0)
+    (hstep : dimStep attr (coordsOf a) = .ok (some step)) (hw : 1 ≤ w)
+    (h : adjustWidth a attr w fill (some pos) = .ok r) :
+    coordsOf r = lattice
+      (if w.toNat ≤ n + 1 then a0 + (cropOffset (n + 1) w.toNat pos : Rat) * step
+       else a0 - (padLeft (w.toNat - (n + 1)) pos : Rat) * step) step w.toNat := by
+  rw [C17_placement a attr w fill pos a0 step n hreg hs hstep hw] at h
+  cases h
+  by_cases hle : w.toNat ≤ n + 1
+  · simp only [hle, if_true, coordsOf_drop_take, hreg, lattice_drop, lattice_take]
+    congr 1
+    cases pos <;> simp [cropOffset] <;> omega
+  · have hpl := padLeft_le (w.toNat - (n + 1)) pos
+    simp only [hle, if_false]
+    simp only [coordsOf, List.map_append, List.map_map, Function.comp_def, List.map_id']
+    have : List.map Prod.fst a = lattice a0 step (n + 1) := hreg
+    rw [this]
+    have e1 : a0 = a0 - (padLeft (w.toNat - (n + 1)) pos : Rat) * step
+        + (padLeft (w.toNat - (n + 1)) pos : Rat) * step := by grind
+    have e2 : a0 + ((n + 1 : Nat) : Rat) * step = a0 - (padLeft (w.toNat - (n + 1)) pos : Rat) * step
+        + ((padLeft (w.toNat - (n + 1)) pos + (n + 1) : Nat) : Rat) * step := by simp; grind
+    conv => lhs; arg 1; arg 2; rw [e1]
+    rw [lattice_append, e2, lattice_append]
+    congr 1; omega
+
+/-- the step of a regular axis of at least two points is known without the attribute: the
+    estimate (mean of the consecutive differences, tolerance check passed) is the axis step, so the
+    hypothesis `dimStep attr coords = ok (some step)` of the theorems above holds both with the
+    attribute and with the estimate -/
+theorem C17_step_known (a0 step : Rat) (k : Nat) (coords : List Rat) :
+    dimStep (some step) coords = .ok (some step) ∧
+    dimStep none (lattice a0 step (k + 2)) = .ok (some step) :=
+  ⟨rfl, dimStep_lattice a0 step k⟩
+
+/-- the pinned tree generated the new coordinates with `arange(end + step, end + step + k * step, step)`
+    and `arange(start - step, start - step - k * step, -step)[::-1]`; over the rationals these are
+    the lists the repaired code generates by count — the width defect of the pinned tree
+    (`width + 1` or `+ 2` samples for steps such as 0.01, 1/3, 0.004) is a binary64 effect only -/
+theorem C17_arange_by_count (e step : Rat) (k : Nat) (hs : step ≠ 0) :
+    arange (e + step) (e + step + (k : Rat) * step) step = lattice (e + step) step k ∧
+    (arange (e - step) (e - step - (k : Rat) * step) (-step)).reverse = lattice (e - (k : Rat) * step) step k := by
+  constructor
+  · simp only [arange]
+    rw [arangeLen_of_whole' (n := k) hs (by grind)]
+  · simp only [arange]
+    rw [arangeLen_of_whole' (n := k) (by grind) (by grind), lattice_neg_reverse]
+    congr 1; grind
+
+-- non-vacuity
+example : cropDim [((0 : Rat), 1), (1/2, 2), (1, 3), (3/2, 4)] (some (1/2)) (some (3/2)) true false (1/1024)
+    = .ok [(1/2, 2), (1, 3)] := by decide +kernel
+example : cropDim [((0 : Rat), 1), (1/2, 2), (1, 3)] (some (1/2)) (some 2) true false (1/1024)
+    = .error .invalid := by decide +kernel
+example : extendDim [((0 : Rat), 1), (1/2, 2)] (some (1/2)) (some (-1)) (some (3/2)) 0 (1/1024) true false
+    = .ok [(-1, 0), (-1/2, 0), (0, 1), (1/2, 2), (1, 0)] := by decide +kernel
+example : extendDim [((0 : Rat), 1), (1/2, 2)] none (some (-1)) (some (3/2)) 0 (1/1024) false true
+    = .ok [(-1/2, 0), (0, 1), (1/2, 2), (1, 0), (3/2, 0)] := by decide +kernel
+example : adjustWidth [((0 : Rat), 1), (1/2, 2), (1, 3)] none 6 0 (some .center)
+    = .ok [(-1/2, 0), (0, 1), (1/2, 2), (1, 3), (3/2, 0), (2, 0)] := by decide +kernel
+example : adjustWidth [((0 : Rat), 1), (1/2, 2), (1, 3), (3/2, 4), (2, 5)] none 2 0 (some .center)
+    = .ok [(1/2, 2), (1, 3)] := by decide +kernel
+example : adjustWidth [((0 : Rat), 1)] none 0 0 (some .start) = .error .invalid := by decide +kernel
+example : dimStep none (lattice (1/4) (3/8) 5) = .ok (some (3/8)) := by decide +kernel
 
 end SE.Proofs.C17
